@@ -7,3 +7,4 @@ import BalmProofs.Props.C20
 #print axioms Balm.Impl.isSubgraph_eq_spec
 #print axioms Balm.Impl.Dump.find_some
 #print axioms Balm.Impl.Dump.find_none
+#print axioms Balm.Impl.judgeStrict_iff
